@@ -22,13 +22,14 @@ func ScanPngHeader(r io.ReadSeeker) (header meta.ExifHeader, err error) {
 	// This is just a coincidence.
 	buf := make([]byte, 8)
 
-	var n int
-	n, err = r.Read(buf)
-	if err != nil {
+	if _, err = io.ReadFull(r, buf); err != nil {
+		if err == io.EOF || err == io.ErrUnexpectedEOF {
+			err = meta.ErrNoExif
+		}
 		return
 	}
 
-	if n != len(signature) || string(buf) != signature {
+	if string(buf) != signature {
 		err = meta.ErrNoExif
 
 		return
@@ -36,12 +37,7 @@ func ScanPngHeader(r io.ReadSeeker) (header meta.ExifHeader, err error) {
 
 	for {
 		// 5.3 Chunk layout
-		n, err = r.Read(buf)
-		if err != nil {
-			break
-		}
-
-		if n != len(buf) {
+		if _, err = io.ReadFull(r, buf); err != nil {
 			break
 		}
 
@@ -51,8 +47,20 @@ func ScanPngHeader(r io.ReadSeeker) (header meta.ExifHeader, err error) {
 		switch chunkType {
 		case "eXIf":
 			offset, _ := r.Seek(0, io.SeekCurrent)
+			// The chunk data is a TIFF structure: its header gives the byte order and the first IFD offset
+			if _, err = io.ReadFull(r, buf); err != nil {
+				return header, meta.ErrNoExif
+			}
+			byteOrder := utils.BinaryOrder(buf)
+			if byteOrder == utils.UnknownEndian {
+				return header, meta.ErrNoExif
+			}
+			firstIfdOffset := byteOrder.Uint32(buf[4:8])
+			if _, err = r.Seek(offset, io.SeekStart); err != nil {
+				return header, err
+			}
 
-			return meta.NewExifHeader(utils.BigEndian, 8, uint32(offset), length, imagetype.ImagePNG), nil
+			return meta.NewExifHeader(byteOrder, firstIfdOffset, uint32(offset), length, imagetype.ImagePNG), nil
 
 		default:
 			// Discard the chunk length + CRC.
